@@ -303,8 +303,8 @@ PROPS['C03'] = {
 
 WINM = 'harness.corr_win'
 PROPS['C14'] = {
-    'targets': ['GridVerse.Props.C14', 'GridVerse.Props.C14Teleport', 'GridVerse.Props.C14Rooms', 'GridVerse.Props.C14Crossing', 'GridVerse.Props.C14Obstacles'],
-    'theorem_files': [('GridVerse/Props/C14.lean', 'C14_'), ('GridVerse/Props/C14Teleport.lean', 'C14_'), ('GridVerse/Props/C14Rooms.lean', 'C14_'), ('GridVerse/Props/C14Crossing.lean', 'C14_'), ('GridVerse/Props/C14Obstacles.lean', 'C14_')],
+    'targets': ['GridVerse.Props.C14', 'GridVerse.Props.C14Teleport', 'GridVerse.Props.C14Rooms', 'GridVerse.Props.C14Crossing', 'GridVerse.Props.C14Obstacles', 'GridVerse.Props.C14MemoryRooms'],
+    'theorem_files': [('GridVerse/Props/C14.lean', 'C14_'), ('GridVerse/Props/C14Teleport.lean', 'C14_'), ('GridVerse/Props/C14Rooms.lean', 'C14_'), ('GridVerse/Props/C14Crossing.lean', 'C14_'), ('GridVerse/Props/C14Obstacles.lean', 'C14_'), ('GridVerse/Props/C14MemoryRooms.lean', 'C14_')],
     'audit_prefix': 'C14_',
     'families': {
         'quick': [(WINM, 'fam_win_theorem_plans', 1920, 16), (WINM, 'fam_win_solver', 960, 16), (WINM, 'fam_win_real_plans', 640, 16), (RESETM, 'fam_splits', 0, 16), (RESETM, 'fam_reset_random', 4000, 16), (CORE, 'fam_trans_random', 3000, 16), (CORE, 'fam_term', 2000, 16)],
@@ -320,7 +320,7 @@ PROPS['C14'] = {
         'winnable = some action sequence and some resolution of the draws reaches the rewarded goal with no earlier terminating step (exists-draws reading for the stochastic obstacle dynamics)',
         'each layout is paired with the dynamics and termination of the shipped configurations that use it',
     ],
-    'partial': 'Proved for all valid parameters and all draws: empty, memory, keydoor, teleport (closed-form executable plans), rooms (>= 4 rows, split vectors as inputs), crossing (wall rivers) (connectivity through the passages / the opened path). dynamic_obstacles with the shipped parameter sets (5x5 with 1 obstacle, 7x7 with 2, fixed agent, shipped chain and bump termination): proved for every stream of draws by kernel-checked certificates (one winning (actions, draws) witness per layout the reset can produce: 7 resp. 506 index vectors, decide +kernel on the proved-sound checkPlan; the witnesses are static data found once by a model-side search, nothing about them is trusted). memory_rooms and crowded dynamic_obstacles are false today (known findings F9, F11); for them and for other dynamic_obstacles parameters winnability is decided per sampled instance by plans accepted by the proved-sound certificate check and executed on the real code.',
+    'partial': 'Proved for all valid parameters and all draws: empty, memory, keydoor, teleport (closed-form executable plans), rooms (>= 4 rows, split vectors as inputs), crossing (wall rivers) (connectivity through the passages / the opened path). dynamic_obstacles with the shipped parameter sets (5x5 with 1 obstacle, 7x7 with 2, fixed agent, shipped chain and bump termination): proved for every stream of draws by kernel-checked certificates (one winning (actions, draws) witness per layout the reset can produce: 7 resp. 506 index vectors, decide +kernel on the proved-sound checkPlan; the witnesses are static data found once by a model-side search, nothing about them is trusted). memory_rooms and crowded dynamic_obstacles are false today (known findings F9, F11); memory_rooms is proved under the side condition that names the finding (C14_memory_rooms_partial: the matching exit is connected to the agent through free non-exit cells), with a decide counter-example showing that the condition cannot be dropped; for them and for other dynamic_obstacles parameters winnability is decided per sampled instance by plans accepted by the proved-sound certificate check and executed on the real code.',
     'level_text': 'Lean 4 theorems: for every valid parameter value and draw stream the goal is reachable for empty / memory / keydoor / teleport (closed-form winning plans) and rooms / crossing (connectivity), soundness of plan certificates for the remaining layouts; plans executed on the real dynamics.',
     'level_note': 'Partial: for memory_rooms and dynamic_obstacles the for-all-parameters statement is not proved (it is false for memory_rooms and for crowded obstacle rooms); those are decided per sampled instance via proved-sound certificates. Trusted: Lean kernel; standard axioms; hand-written model tied by differential execution.',
 }
